@@ -117,6 +117,18 @@ Theorem C09_undo_refuted :
 Proof. exact undo_refuted_witness. Qed.
 Print Assumptions C09_undo_refuted.
 
+(* The capture of compare.py for a changed object (Ops.capture): with old := the database's object the case is in the class
+   of C09_model_holds (so the downgrade restores the database); with the metadata's object stored instead, the upgrade reads
+   identically for toimpl, but the payload does not describe the database and the downgrade does not restore it. *)
+Theorem C09_capture_database_side :
+  inclass_C09 (InChange w_cap_tables [116%N] None (ChUnique w_cap_old w_cap_new)) = true /\
+  let bad := capture_ops [116%N] None (ChUnique w_cap_new w_cap_new) in
+  Forall2 ddl_equiv_top bad (capture_ops [116%N] None (ChUnique w_cap_old w_cap_new)) /\
+  undoable_ops bad (db_of w_cap_tables) = false /\
+  restoresb w_cap_tables bad (reverse_ops bad) = false.
+Proof. exact capture_witness. Qed.
+Print Assumptions C09_capture_database_side.
+
 (* ------------------------------------------------------------------ non-vacuity *)
 
 (* deferrable=False (repaired by ea71f11) is inside the class *)
